@@ -12,8 +12,8 @@ open Proto C22
    item = `(h kind f (depth ...) chk)` | `(l lvl col)` | `(sd f)` | `(sc f depth)`
           kind 0 sync 1 start 2 finish; depth = `(lit var max m1 annexedOnly)` var = `x` | id; lvl = `o` | `a` | `(h d)` | `m`
 `(exec A Hmax (litem ...))` litem = `(h kind f (depth ...) chk)` | `(l kern lvl col)` | `(sd f)` | `(sc f depth)`
-   → `(ok n)` n = number of (field, H, env, cont, initial state) combinations executed, or
-     `(fail reason f H (env ...) cont ann cd recorded step)` for the first failing one. -/
+   → `(ok n (fail ...))` n = number of (field, H, env, cont, initial state) combinations executed;
+     one `(fail reason f H (env ...) cont ann cd recorded step)` per distinct (reason, field, step). -/
 
 def b2s (b : Bool) : String := if b then "1" else "0"
 def sBool (s : Sexp) : Bool := s.nat?.getD 0 == 1
@@ -129,36 +129,50 @@ def envFn (e : List (Nat × Nat)) (v : Nat) : Nat :=
 def failName : Failure → String
   | .dirtyRead => "dirtyRead" | .recordedTooClean => "recordedTooClean" | .asyncPairing => "asyncPairing"
 
-/-- run and report the index of the failing step -/
-def runIdx (H : Nat) (env : Nat → Nat) (cont : Bool) (f : Nat) :
-    List LItem → RState → Nat → Option (Failure × Nat)
+/-- run for the harness: a dirty read is recorded and execution continues (so that one failure
+does not mask later ones); any other failure stops the run.  Returns (failure, step index) list. -/
+def runAll (H : Nat) (env : Nat → Nat) (cont : Bool) (f : Nat) :
+    List LItem → RState → Nat → List (Failure × Nat)
   | [], s, n => match runF H env cont f [] s with
-    | .error e => some (e, n)
-    | .ok _ => none
+    | .error e => [(e, n)]
+    | .ok _ => []
   | x :: xs, s, n => match stepF H env cont f s x with
-    | .error e => some (e, n)
-    | .ok s' => runIdx H env cont f xs s' (n + 1)
+    | .error .dirtyRead =>
+      -- continue as if the read had been satisfied
+      let s' : RState := match x with
+        | .loop k b => match argOf k f with
+          | some a => if a.access.writes then { s with act := specAfter H cont k b a s.act } else s
+          | none => s
+        | _ => s
+      (Failure.dirtyRead, n) :: runAll H env cont f xs s' (n + 1)
+    | .error e => [(e, n)]
+    | .ok s' => runAll H env cont f xs s' (n + 1)
 
 def initStates (cfg : Cfg) (cont : Bool) (H : Nat) : List RState :=
   ([false, true].flatMap fun ann => (List.range (H + 1)).flatMap fun cd =>
     (List.range (cd + 1)).map fun r => (⟨r, ⟨ann, cd⟩, none⟩ : RState)).filter (wfState cfg cont)
 
+/-- all distinct (reason, field, step) failures with the first witness of each -/
 def execAll (cfg : Cfg) (hmax : Nat) (prog : List LItem) : String := Id.run do
   let fields := fieldsOf prog
   let es := envs (varsOf prog)
   let mut n := 0
+  let mut seen : List (String × Nat × Nat) := []
+  let mut out : List String := []
   for f in fields do
     for H in (List.range hmax).map (· + 1) do
       for e in es do
+       if deepEnough H (envFn e) prog then
         for cont in [false, true] do
           if consistentF cont f prog then
             for s in initStates cfg cont H do
               n := n + 1
-              match runIdx H (envFn e) cont f prog s 0 with
-              | some (err, idx) =>
-                return s!"(fail {failName err} {f} {H} {showList (fun p => s!"({p.1} {p.2})") e} {b2s cont} {b2s s.act.ann} {s.act.cd} {s.recorded} {idx})"
-              | none => pure ()
-  return s!"(ok {n})"
+              for (err, idx) in runAll H (envFn e) cont f prog s 0 do
+                let key := (failName err, f, idx)
+                if !seen.contains key then
+                  seen := key :: seen
+                  out := s!"(fail {failName err} {f} {H} {showList (fun p => s!"({p.1} {p.2})") e} {b2s cont} {b2s s.act.ann} {s.act.cd} {s.recorded} {idx})" :: out
+  return s!"(ok {n} {showList id out.reverse})"
 
 def handle (s : Sexp) : String :=
   match s with
